@@ -28,11 +28,15 @@ class Facts:
         self.conds = list(conds)
         self.dims = set(dims)
         self.pos_terms = set()   # Poly keys known positive
+        self.lower = {}          # app name -> fn(*index terms) -> Poly lower bound (e.g. variances >= floors)
+        self.int_apps = {}
 
     def extend(self, conds=()):
         f = Facts(self.pos_apps, self.nonneg_apps, self.pos_syms - self.dims, self.nonneg_syms,
                   self.conds + list(conds), self.dims)
         f.pos_terms = set(self.pos_terms)
+        f.lower = dict(self.lower)
+        f.int_apps = dict(self.int_apps)
         return f
 
 
@@ -232,6 +236,12 @@ class Tr:
             self.axioms.append(v < 0)
         elif s == "0-":
             self.axioms.append(v <= 0)
+        if k == "app" and a.args[0] in F.lower:
+            try:
+                lb = F.lower[a.args[0]](*a.args[1:])
+                self.axioms.append(v >= self.poly(lb))
+            except TypeError:
+                pass
         if k == "max":
             x, y = self.poly(a.args[0]), self.poly(a.args[1])
             self.axioms += [v >= x, v >= y, z3.Or(v == x, v == y)]
